@@ -528,7 +528,7 @@ impl<'de, R: Read<'de>> Parser<R> {
             b'-' => {
                 self.eat_char();
                 let next = self.peek_or_null()?;
-                if next == 0 || is_delimiter(next) || is_sign_subsequent(next) {
+                if next == 0 || is_delimiter(next) || is_sign_subsequent(next) || next > 127 {
                     Token::Symbol(self.parse_symbol_suffix("-")?.into())
                 } else {
                     Token::Number(self.parse_num_literal(10, false)?)
@@ -537,7 +537,7 @@ impl<'de, R: Read<'de>> Parser<R> {
             b'+' => {
                 self.eat_char();
                 let next = self.peek_or_null()?;
-                if next == 0 || is_delimiter(next) || is_sign_subsequent(next) {
+                if next == 0 || is_delimiter(next) || is_sign_subsequent(next) || next > 127 {
                     Token::Symbol(self.parse_symbol_suffix("+")?.into())
                 } else {
                     Token::Number(self.parse_num_literal(10, true)?)
